@@ -88,6 +88,9 @@ def _derived(case, base) -> set[int]:
     for i, n in enumerate(case["nodes"]):
         if base(n):
             res.add(i)
+        elif n["op"] in ("sum", "prod", "amax", "amin") and n.get(
+                "p", {}).get("axis") == [] and n["args"][0][1] in res:
+            res.add(i)          # reduction over no axes is the identity
         elif n["op"] in MOVEMENT:
             refs = [a[1] for a in n.get("args", [])[:1] if a[0] == "n"]
             if n["op"] in ("stack", "concatenate"):
@@ -270,7 +273,30 @@ def _known_where_nonbool_condition(case, failure) -> bool:
     return v is not None and _variant_passes(v)
 
 
+def _known_bitwise_under_cast(case, failure) -> bool:
+    """an inlined bitwise operation below a cast to a floating type: loopy
+    pushes the cast into the operands ('(double)a & (double)b')."""
+    from pvf.npref import BITWISE
+    ops = _derived(case, lambda n: n["op"] in BITWISE)
+    v = _store(case, lambda n, pos: True, ops)
+    return v is not None and _variant_passes(v)
+
+
+def _known_index_with_cast(case, failure) -> bool:
+    """an inlined index array expression containing a cast under '%'."""
+    ops = set()
+    for n in case["nodes"]:
+        if n["op"] == "index":
+            for a in n["args"][1:]:
+                if a[0] == "n":
+                    ops.add(a[1])
+    v = _store(case, lambda n, pos: n["op"] == "index" and pos > 0, ops)
+    return v is not None and _variant_passes(v)
+
+
 KNOWN_PREDICATES = {
+    "bitwise_under_cast": _known_bitwise_under_cast,
+    "index_with_cast": _known_index_with_cast,
     "where_nonbool_condition": _known_where_nonbool_condition,
     "cmp_of_cmp": _known_cmp_of_cmp,
     "cmp_of_bitwise": _known_cmp_of_bitwise,
